@@ -80,13 +80,16 @@ def draw(desc: dict, mode: str, modes: list[str], n: int, seed: int) -> dict:
         collect()
     except Unsatisfiable:
         out["outcome"] = "unsat" if not drawn else "cases"
-    except unittest.SkipTest:
-        out["outcome"] = "skipped" if not drawn else "cases"
-    except Exception as exc:
-        if type(exc).__name__ in ("Unsatisfiable", "FailedHealthCheck") and not drawn:
+    except KeyboardInterrupt:
+        raise
+    except BaseException as exc:  # schemathesis' SkipTest derives from BaseException
+        name = type(exc).__name__
+        if name == "SkipTest" or isinstance(exc, unittest.SkipTest):
+            out["outcome"] = "skipped" if not drawn else "cases"
+        elif name in ("Unsatisfiable", "FailedHealthCheck") and not drawn:
             out["outcome"] = "unsat"
         elif not drawn:
-            out["outcome"], out["error"] = "error", "draw:%s:%s" % (type(exc).__name__, str(exc)[:160])
+            out["outcome"], out["error"] = "error", "draw:%s:%s" % (name, str(exc)[:160])
     if not drawn and out["outcome"] == "cases":
         out["outcome"] = "unsat"
     seen = set()
@@ -137,15 +140,21 @@ def part_detail(detail: Any) -> list:
 
 
 def signature(rule: str, detail: Any, desc: dict) -> str:
-    kws = kw_detail(detail)
     if rule in ("parameters-do-not-conform", "body-does-not-conform"):
-        where = "+".join("%s{%s}" % (p, ",".join(k)) for p, k in sorted(kws.items())) or \
-            "+".join(sorted(t[0] for t in part_detail(detail) if t[1] == "F"))
-        return "C01:%s:%s:%s" % (rule, where, primary(features(desc)))
+        kws = sorted({k for ks in kw_detail(detail).values() for k in ks})
+        feats = features(desc)
+        if kws and set(kws) <= {"maxLength", "minLength"} and "pattern+length" in feats:
+            feat = "pattern+length"
+        elif "props" in kws and "readOnly" in feats:
+            feat = "readOnly"
+        else:
+            feat = primary(feats)
+        missing = "missing-required" if not kws else ""
+        return "C01:does-not-conform:{%s}%s:%s" % (",".join(kws), missing, feat)
     if rule in ("nul-character", "outside-codec"):
         cfg = desc.get("cfg") or {}
         return "C01:%s:allow_x00=%s,codec=%s" % (rule, cfg.get("allow_x00"), cfg.get("codec"))
-    if rule == "satisfiable-but-unsat":
+    if rule.startswith("satisfiable-but-"):
         return "C01:%s:%s" % (rule, primary(features(desc)))
     return "C01:%s" % rule
 
@@ -173,8 +182,8 @@ def run_property(ctx: Ctx, pid: str, family: str, jobs_for, n_label: str, sign, 
     dis, und, jres = judge(ctx, [], ops, obs)
     outcomes = _count(r["outcome"] for r in results)
     errors = _count(":".join(r["error"].split(":")[:2]) for r in results if r["error"])
-    for i in sorted(dis):
-        rule, detail = dis[i]
+    for i, rule in [(i, r) for i in sorted(dis) for r in dis[i][0]]:
+        detail = dis[i][1]
         ji, c = back[i - 1]
         job = jobs[ji]
         sig = sign(rule, detail, job["desc"])
@@ -191,7 +200,7 @@ def run_property(ctx: Ctx, pid: str, family: str, jobs_for, n_label: str, sign, 
     for j in common.sample(rng, pool, 5):
         ji, c = back[j]
         samples.append({"descriptor": _short(jobs[ji]["desc"])[:300], "mode": jobs[ji]["mode"], "labels": c["labels"],
-                        "parts": json.dumps(_decoded_parts(c), default=repr)[:200], "rule": dis.get(j + 1, ("ok",))[0]})
+                        "parts": json.dumps(_decoded_parts(c), default=repr)[:200], "rules": dis.get(j + 1, (["ok"],))[0]})
     out.coverage = {
         "states": res.distinct, "transitions": res.generated, "operation_descriptors": len(descs), "jobs": len(jobs),
         "groups": _count(d["group"] + "/" + d["dialect"] for d in descs),
@@ -239,8 +248,8 @@ def replay_property(ctx: Ctx, pid: str, data: dict, sign) -> Outcome:
     r = _work(job)
     ops, obs, back = assemble(pid, [job], [r])
     dis, _, _ = judge(ctx, [], ops, obs)
-    for i in sorted(dis):
-        rule, detail = dis[i]
+    for i, rule in [(i, r) for i in sorted(dis) for r in dis[i][0]]:
+        detail = dis[i][1]
         if rule == data["rule"]:
             out.violations.append(Violation(sign(rule, detail, job["desc"]), rule, data))
     return out
@@ -280,7 +289,7 @@ def selftest(ctx: Ctx) -> bool:
            {"kind": "outcome", "prop": "C01", "opi": 1, "outcome": "unsat", "negOnly": False},   # 8 satisfiable but unsat
            {"kind": "outcome", "prop": "C01", "opi": 1, "outcome": "cases", "negOnly": False}]   # 9 fine
     dis, _, _ = judge(ctx, [], [op], obs, name="selftest.json")
-    got = {i: dis[i][0] for i in dis}
+    got = {i: dis[i][0][0] for i in dis}
     want = {2: "parameters-do-not-conform", 3: "body-does-not-conform", 4: "nul-character", 5: "outside-codec",
             6: "parameters-do-not-conform", 7: "case-not-labelled-positive", 8: "satisfiable-but-unsat"}
     if got != want:
